@@ -47,6 +47,10 @@ type caseT struct {
 	AllBelow int         `json:"all_splits_up_to"` // files up to this length are split at every offset
 	Split    int         `json:"failing_split,omitempty"`
 	Reader   *readerSpec `json:"reader,omitempty"` // family readers only (readers.go)
+	// family calls only (calls.go): the calls made on one muxer, and whether its writer is switched to a fresh
+	// buffer before every WriteHeader after the first call
+	Ops       []opSpec `json:"ops,omitempty"`
+	NewWriter bool     `json:"new_writer_per_header,omitempty"`
 }
 
 func (cs *caseT) id() string {
@@ -564,6 +568,8 @@ func run(c *hl.Ctx) {
 		"bodies between 65536 and 2^24-1 bytes are represented by the sizes of family large (the upper neighbours of 2^16 and 2^17 and sizes aligned to nothing); a demuxer whose behaviour changes at another size in between is not distinguished",
 		"in families readers and large the tag type and timestamp do not take every combination per position (they rotate through the alphabets): what the demuxer asks of the reader depends on the body sizes only; type x timestamp x size products are family full's")
 
+	callsAssume(c)
+
 	e := &enum{c: c}
 	w := 40
 	if c.Quick() {
@@ -580,11 +586,17 @@ func run(c *hl.Ctx) {
 		rule += "Family d3-small: every sequence of 3 tags over type x timestamp x size {0,1,255,256} (140^3), flags rotating, split window 16 above 160 bytes. Family d3-big: every sequence of 3 tags over type {8,9,255} x timestamp {1,0x1000000,0xFFFFFFFF} x all six sizes with at least one body >= 65535, flags rotating, split window 16. Family max-body: body of 2^24-1 bytes alone and next to a second tag. "
 	}
 	rule += "Family near-max-body (both tiers): one tag of 2^24-12, 2^24-11, 2^24-10, 2^24-2 and 2^24-1 bytes (11 + size crosses 2^24), split window 2. "
+	rule += callsRule(c)
 	rule += readersRule(c)
 	rule += largeRule(c)
 	rule += "Each case of the other families: library muxer output compared byte for byte with the independent writer and parsed by the independent parser; library demuxer run on the library-written and on the reference-written bytes under whole / EOF-with-data / one-byte / every two-piece segmentation, every returned value compared. Non-trivial = distinct case with >= 1 tag whose file was written without error and read back identically under every segmentation."
 	c.Rule(rule)
 	c.Info("max_sequence_length", depth)
+
+	// family calls (calls.go): call sequences on one muxer (cheap, so it goes first and is never cut by the budget)
+	if !runCalls(c, e) {
+		return
+	}
 
 	// family readers (readers.go): product of reader behaviours over size-driven sequences
 	if !runReaders(c, e, w) {
@@ -701,6 +713,10 @@ func replay(c *hl.Ctx, raw json.RawMessage) {
 	cs.Split = 0
 	if cs.AllBelow == 0 {
 		cs.AllBelow = 2048
+	}
+	if cs.Family == "calls" {
+		checkCalls(c, &cs)
+		return
 	}
 	if (cs.Family == "readers" || cs.Family == "large") && cs.Reader != nil {
 		checkReaders(c, &cs, []variant{{cs.Reader.EOFWithData, cs.Reader.Empty}})
